@@ -51,6 +51,18 @@ def arg_kind(S, t):
     return k
 
 
+def alias_hops(S, t):
+    """references crossed before the type is reached, minus the one every named type needs: > 0 means through an alias"""
+    n = 0
+    while t["k"] in ("ref", "nullable"):
+        if t["k"] == "ref":
+            n += 1
+            t = S[t["name"]]
+        else:
+            t = t["t"]
+    return max(0, n - 1)
+
+
 def violated_bounds(t, v):
     out = []
     if t["k"] in ("int", "num") and isinstance(v, (int, float)) and not isinstance(v, bool):
@@ -106,8 +118,8 @@ def bound_class(pl, shape, t, v, path):
                 else:
                     subs = [irb]
                 for sb in subs:
-                    for o in (sb or {}).get("options", []):
-                        if bc.norm_name(o["name"]) == bc.norm_name(seg) and len(o["args"]) == 1:
+                    for o in bc.pick_named((sb or {}).get("options", []), seg):
+                        if len(o["args"]) == 1:
                             nxt = o["args"][0]["shape"]
             shape = nxt
         else:
@@ -117,6 +129,8 @@ def bound_class(pl, shape, t, v, path):
     if not vb:
         return "unknown-bound"
     b = vb[0]
+    if shape is not None and shape.get("k") == "plain" and shape.get("ref"):
+        return b + ":through-named-type"     # the argument is typed by a NAMED scalar: the constraint sits on the named type
     if shape is None or shape.get("k") != "plain" or "cons" not in shape:
         return b
     if IR_OPS[b] in shape["cons"]:
@@ -136,12 +150,16 @@ def call_class(entry, info):
     """method@where/argument kind of one executed call (info from the twin machine)"""
     if info["o"] == 0:
         return "constructor-argument"
-    return "%s@%s/%s" % (info["m"], path_class(entry, info["paths"][0]), arg_kind(entry["S"], info["vt"]))
+    vt = info["vt"]
+    while vt["k"] in ("arr", "map") or (vt["k"] == "nullable"):
+        vt = vt["t"]
+    return "%s@%s/%s%s" % (info["m"], path_class(entry, info["paths"][0]), arg_kind(entry["S"], info["vt"]),
+                           "@alias" if alias_hops(entry["S"], vt) else "")
 
 
 def collection_class(entry, info):
     """for a violation INSIDE a collection argument the optionality of the field is immaterial"""
-    return "%s@%s/%s" % (info["m"], "field" if len(info["paths"][0]) == 1 else "nested-path", arg_kind(entry["S"], info["vt"]))
+    return "%s@field/%s" % (info["m"], arg_kind(entry["S"], info["vt"]))
 
 
 def struct_depth(S, t, path):
@@ -231,10 +249,12 @@ def run(ctx):
         rng = random.Random(ctx.seed)
         order = list(batch.ids)
         rng.shuffle(order)
-        pair_ids = sorted(order[:max(1, len(order) // 3)])
-        deep_ids = sorted(order[:1])
+        runs_go = [i for i in order if any(u["id"] == i and u["status"] == "ok" for u in batch.units.values())]
+        deep_ids = sorted((runs_go or order)[:1])          # an entry whose Go package compiles, so that both languages see triples
+        pair_ids = sorted(set(order[:max(1, len(order) // 3)]) | set(deep_ids))
         for ids_, ml in ((pair_ids, 2), (deep_ids, 3)):
-            more, _ = bc.emit_cases(ctx, ids_, maxlen=ml)
+            # a window of the entry's options (rotating with the seed): 8 for pairs, 5 for triples
+            more, _ = bc.emit_cases(ctx, ids_, maxlen=ml, win=5 if ml == 3 else 8, start=ctx.seed)
             for k, lst in more.items():
                 have = {sc.dumps(c["pyseq"]) for c in cases[k]}
                 cases[k] += [c for c in lst if sc.dumps(c["pyseq"]) not in have]
@@ -256,18 +276,16 @@ def run(ctx):
     go_cmds, py_cmds, index = [], [], {}
     plan_errors = collections.Counter()
     for u in batch.units.values():
-        if u["status"] != "ok":
-            continue
         entry = batch.cat[u["id"]]
         for lang in bc.LANGS:
-            bound = u["bind"].get(lang)
+            bound = u["bind"].get(lang) if bc.usable(u, lang) else None
             if not bound or (u["pkg"], lang) not in D or not set(entry["B"]) <= set(D[(u["pkg"], lang)]):
                 batch.stats["unit_lang_unbound:" + lang] += 1
                 continue
             pl = bc.Planner(entry, u, lang, bound)
             pl1 = bc.Planner(entry, u, lang, bound, variant=1)
             has_ctor_args = bool(entry["B"]["Root"]["ctor"]["args"])
-            peers = sorted(x["pkg"] for x in batch.units.values() if x["id"] == u["id"] and x["status"] == "ok" and x["bind"].get(lang)
+            peers = sorted(x["pkg"] for x in batch.units.values() if x["id"] == u["id"] and bc.usable(x, lang) and x["bind"].get(lang)
                            and (x["pkg"], lang) in D)
             for c in sel.get((u["id"], lang), []):
                 if ctx.quick() and not replay and peers[(c["n"] + ctx.seed) % len(peers)] != u["pkg"]:
@@ -312,6 +330,53 @@ def run(ctx):
     harness_errs = collections.Counter()
     cnt = collections.Counter()
     samples = []
+    # ---- the generated constructors themselves: a crash is a violation; the fresh builder's object must be the TYPE's own default
+    #      object plus what the builder's constructor is told to set (constants are in both; `initialize` veneers)
+    for pkg_, lang_, key_, what_ in getattr(batch, "construction_failures", []):
+        u_ = batch.units[pkg_]
+        e_ = batch.cat[u_["id"]]
+        if not e_["c09"]:
+            continue
+        ctx.fail("C09/%s/valid-accepted/%s:constructor" % (lang_, "panic" if what_.startswith("panic") else what_.split(":")[0]),
+                 "%s: constructing the %s builder of entry %s fails: %s" % (lang_, key_, e_["name"], what_),
+                 {"entry_id": u_["id"], "entry": e_["name"], "format": u_["fmt"], "lang": lang_, "schema": e_["schema"], "schema_text": u_.get("text"),
+                  "veneers": u_.get("veneers"), "seq": [], "builder": key_, "real": what_})
+    fresh_records = []
+    for (pkg_, lang_), tds in sorted(getattr(batch, "type_defaults", {}).items()):
+        u_ = batch.units[pkg_]
+        e_ = batch.cat[u_["id"]]
+        if not e_["c09"] or (pkg_, lang_) not in D:
+            continue
+        for key_, td in sorted(tds.items()):
+            if key_ not in e_["B"] or e_["B"][key_]["ctor"]["args"] or key_ not in D[(pkg_, lang_)] or key_ not in e_["S"]:
+                continue
+            exp = json.loads(json.dumps(td))
+            for r_ in e_["rules"]:
+                if r_["k"] == "init" and r_["obj"] == key_:
+                    exp = bc.apply_at(e_["S"], D[(pkg_, lang_)], key_, e_["S"][key_], exp, r_["fields"][1:], "direct", r_["fields"][0], None)
+            fresh = D[(pkg_, lang_)][key_]
+            viol = set() if bc.same_obj(exp, fresh) else {"Fresh"}
+            try:
+                if u_["id"] not in entries_idx:
+                    entries.append({"schema": e_["schema"], "builders": e_["builders"], "rules": e_["rules"]})
+                    entries_idx[u_["id"]] = len(entries)
+                dk_ = (pkg_, lang_)
+                if dk_ not in defaults_idx:
+                    defaults.append([{"key": k, "obj": sc.py_to_jv(v)} for k, v in sorted(D[dk_].items())])
+                    defaults_idx[dk_] = len(defaults)
+                tf.write(json.dumps({"kind": "fresh", "ei": entries_idx[u_["id"]], "di": defaults_idx[dk_], "key": key_,
+                                     "typeDefault": sc.py_to_jv(td), "fresh": sc.py_to_jv(fresh)}, separators=(",", ":")) + "\n")
+            except sc.NotInUniverse:
+                continue
+            fresh_records.append(("%s/%s/%s" % (pkg_, lang_, key_), viol))
+            cnt["fresh_builders_compared_with_the_type_default"] += 1
+            if viol:
+                d_ = sc.first_diff(_strip(exp), _strip(fresh))
+                ctx.fail("C09/%s/constants/fresh-builder-differs-from-default-object:%s" % (lang_, (d_[1] if d_ else "changed")),
+                         "%s: the freshly constructed %s builder holds %s, the default object (plus the constructor's own assignments) is %s"
+                         % (lang_, key_, sc.dumps(fresh), sc.dumps(exp)),
+                         {"entry_id": u_["id"], "entry": e_["name"], "format": u_["fmt"], "lang": lang_, "schema": e_["schema"], "schema_text": u_.get("text"),
+                          "veneers": u_.get("veneers"), "seq": [], "builder": key_, "fresh": fresh, "type_default": td})
     for cid, (u, lang, c) in index.items():
         entry = batch.cat[u["id"]]
         S = entry["S"]
@@ -343,6 +408,11 @@ def run(ctx):
             built = r.get("built") if has_built else None
             real_fails = has_obj and r.get("build_err") is not None
             raw = {"build_err": r.get("build_err"), "errors_map_keys": r.get("errs"), "panic": r.get("panic")}
+            unstable = [k for k, bad_ in (("second-build-differs", r.get("build2_same") is False),
+                                          ("second-builder-differs", r.get("again_same") is False),
+                                          ("fresh-object-drifts", has_obj and r.get("fresh_same") is False)) if bad_]
+            if unstable:
+                raw["again_diff"] = r.get("again_diff")
         else:
             r = pres[cid]
             if r.get("harness_err"):
@@ -363,6 +433,11 @@ def run(ctx):
                 has_obj = True   # build() raised: the Build verdict is observable, the object is not
                 real_obj = None
             raw = {"raised": r["raised"], "build_error": r.get("enc_err")}
+            unstable = [k for k, bad_ in (("second-build-differs", r.get("build2_same") is False),
+                                          ("second-builder-differs", r.get("again_same") is False),
+                                          ("fresh-object-drifts", r.get("fresh_same") is False)) if bad_]
+            if unstable:
+                raw["again_diff"] = r.get("again_diff")
         m = bc.Machine(lang, entry, Dr).run(seq)
         exp_fails = m.fails()
         judge_build = not m.ambiguous()
@@ -391,9 +466,12 @@ def run(ctx):
                 violated.add("Exact")
         if obj_ok and not bc.consts_ok(S, S["Root"], real_obj):
             violated.add("Consts")
+        if unstable:
+            violated.add("Stable")
+            descr["Stable"] = unstable[0]
         # ---- trace record
         if u["id"] not in entries_idx:
-            entries.append({"schema": entry["schema"], "builders": entry["builders"]})
+            entries.append({"schema": entry["schema"], "builders": entry["builders"], "rules": entry["rules"]})
             entries_idx[u["id"]] = len(entries)
         dk = (u["pkg"], lang)
         if dk not in defaults_idx:
@@ -405,15 +483,13 @@ def run(ctx):
                    "judge": {"build": judge_build},
                    "real": {"obj": sc.py_to_jv(real_obj) if obj_ok else {"j": "none"}, "hasObj": obj_ok, "hasVerdict": bool(has_obj),
                             "built": sc.py_to_jv(built) if has_built else {"j": "none"}, "hasBuilt": bool(has_built),
-                            "fails": bool(real_fails), "raised": real_raised}}
+                            "fails": bool(real_fails), "raised": real_raised, "stable": not unstable}}
         except sc.NotInUniverse:
             cnt["outside_number_universe"] += 1
             continue
         tf.write(json.dumps(rec, separators=(",", ":")) + "\n")
         records.append((cid, violated, descr, m, real_obj, built, real_raised, kinds, real_fails, raw, seq))
     tf.close()
-    if harness_errs:
-        raise core.Inconclusive("the harness could not drive the generated builders: %s" % dict(harness_errs))
     if not records:
         raise core.Inconclusive("no call sequence was executed")
     # ---- TLC recomputes every verdict from the real defaults and the real outcomes
@@ -426,16 +502,23 @@ def run(ctx):
     for line in open(tr["out"], errors="replace"):
         if line.startswith('<<"CONSUMED", '):
             consumed = int(line[len('<<"CONSUMED", '):].split(">>")[0])
-    if consumed != len(records):
-        raise core.Inconclusive("BuilderTrace consumed %s of %d records" % (consumed, len(records)))
+    nfresh = len(fresh_records)
+    if consumed != len(records) + nfresh:
+        raise core.Inconclusive("BuilderTrace consumed %s of %d records" % (consumed, len(records) + nfresh))
     tlc_viol = {f["l"] - 1: set(f["violated"]) for f in core.tagged_lines(tr["out"], "FAIL")}
     agree = 0
+    disagree = []
+    for i, (fid, fv) in enumerate(fresh_records):
+        if tlc_viol.get(i, set()) != fv:
+            disagree.append("%s (fresh builder): TLC %s, python %s" % (fid, sorted(tlc_viol.get(i, set())), sorted(fv)))
+        elif not fv:
+            agree += 1
     for i, rec in enumerate(records):
-        tv = tlc_viol.get(i, set())
+        tv = tlc_viol.get(i + nfresh, set())
         if tv != rec[1]:
-            raise core.Inconclusive("TLC and the python twin disagree on %s (seq %s): TLC %s, python %s" % (
-                rec[0], sc.dumps(rec[10]), sorted(tv), sorted(rec[1])))
-        if not tv:
+            disagree.append("%s (seq %s): TLC %s, python %s" % (rec[0], sc.dumps(rec[10]), sorted(tv), sorted(rec[1])))
+            rec[1].clear()       # no verdict from a record the two judges do not agree on
+        elif not tv:
             agree += 1
     # ---- failures with signatures, coverage counters
     per = collections.Counter()
@@ -477,7 +560,13 @@ def run(ctx):
                        "expected": {"object": m.obj, "nested_builder_errors": [list(p) for p in m.errs], "raised": m.raised, "build_fails": m.fails()},
                        "real": dict(raw, object=real_obj, built=built, raised=real_raised, build_fails=real_fails),
                        "default_object": D[(u["pkg"], lang)]["Root"]}
-        primary = [v for v in ("SpuriousError", "NotReported", "Exact", "Consts") if v in violated][0]
+        primary = [v for v in ("SpuriousError", "NotReported", "Exact", "Consts", "Stable") if v in violated][0]
+        if primary == "Stable":
+            ctx.fail("C09/%s/exact-target/%s" % (lang, descr["Stable"]),
+                     "%s: after %s: %s (a second Build(), the same calls on a second fresh builder and every freshly constructed object "
+                     "must give what the first ones gave)" % (lang, sc.dumps(base_replay["calls"]), raw),
+                     base_replay)
+            continue
         if primary == "NotReported":
             where, i = descr["NotReported"]
             if where == "call":
@@ -494,14 +583,17 @@ def run(ctx):
             else:
                 x = seq[m.calls.index(ci)]
                 a0 = (entry["B"]["Root"]["ctor"]["asgs"] if ci["o"] == 0 else entry["B"]["Root"]["opts"][ci["o"] - 1]["asgs"])
-                a0 = [a for a in a0 if tuple(a["path"]) == ci["paths"][-1]][0]
+                a0 = [a for a in a0 if tuple(a["path"]) == ci["paths"][-1] and a["src"] > 0][0]
                 ir_args = (u["bind"][lang]["Root"]["ir"]["ctor"]["args"] if ci["o"] == 0 else u["bind"][lang]["Root"]["opts"][ci["o"] - 1]["args"])
                 argv = x["as"][a0["src"] - 1]
                 # go judges the value the nested builders produce (their defaults included), python the argument itself
                 judged = bc.built(S, D[(u["pkg"], lang)], bc.type_at(S, "Root", S["Root"], a0["path"])[0], ci["vt"], argv) if lang == "go" else argv
                 pos = (a0["src"] - 1) if ci["o"] == 0 else u["bind"][lang]["Root"]["opts"][ci["o"] - 1]["argpos"][a0["src"]]
                 bcls = bound_class(bc.Planner(entry, u, lang, u["bind"][lang]), ir_args[pos]["shape"], ci["vt"], judged, ci["violations"][0])
-                if "not-in-ir" in bcls:
+                if "through-named-type" in bcls:
+                    # the argument's type is a NAMED constrained scalar: one class whatever the option and the bound
+                    sig = "C09/%s/invalid-reported/constraint-through-named-type" % lang
+                elif "not-in-ir" in bcls:
                     # the constraint never reached the builder jenny (lost between the source schema and the IR): one class per
                     # lost bound, whatever the option looks like
                     sig = "C09/%s/invalid-reported/constraint-%s" % (lang, bcls)
@@ -557,11 +649,18 @@ def run(ctx):
                                                "exact-target:nested-path", "exact-target:nil-intermediate", "exact-target:nested-builder",
                                                "constants", "invalid-reported", "valid-accepted", "nested-error", "len1", "len2", "len3")]
         vac = [k for k in need if per[k] == 0]
+        if disagree:
+            bc.soft_inconclusive(ctx, "TLC and the python twin disagree on %d record(s), first: %s" % (len(disagree), disagree[0]))
+        if harness_errs:
+            bc.soft_inconclusive(ctx, "the harness could not drive the generated builders: %s" % dict(harness_errs))
         if vac:
-            raise core.Inconclusive("vacuous clauses (never exercised on executable code): %s" % vac)
+            bc.soft_inconclusive(ctx, "vacuous clauses (never exercised on executable code): %s" % vac)
     binding = None
     if not replay:
-        binding = selftest_binding(ctx, tdir, records, entries, defaults, tpath)
+        try:
+            binding = selftest_binding(ctx, tdir, records, entries, defaults, tpath)
+        except core.Inconclusive as e:
+            bc.soft_inconclusive(ctx, str(e))
     status = collections.Counter(u["status"] for u in batch.units.values())
     not_exec = collections.Counter()
     for u in batch.units.values():
@@ -583,6 +682,7 @@ def run(ctx):
         "tlc_cases": n_tlc_cases, "cases_selected": sum(len(v) for v in sel.values()),
         "entries": [batch.cat[i]["name"] for i in batch.ids], "entries_with_sequences_of_3": [batch.cat[i]["name"] for i in deep_ids],
         "units": dict(status), "units_not_observed": dict(not_exec), "call_plans_not_buildable": dict(plan_errors),
+        "derived_options_missing": sorted({x for u in batch.units.values() for x in u.get("derived_options_missing", [])})[:20],
         "ir_differs_from_derivation": sorted({x for u in batch.units.values() for x in u.get("ir_differs_from_derivation", [])})[:20],
         "cases_skipped": dict(cnt),
         "default_objects_not_obtainable": [list(p) for p in dproblems][:10],
@@ -655,7 +755,7 @@ def selftest_binding(ctx, tdir, records, entries, defaults, tpath):
         rec = {"kind": "seq", "ei": 1, "di": 1, "lang": m.lang, "cid": cid,
                "seq": [{"o": x["o"], "as": [sc.py_to_jv(a) for a in x["as"]]} for x in seq], "judge": {"build": True},
                "real": {"obj": sc.py_to_jv(obj), "hasObj": True, "built": {"j": "none"}, "hasBuilt": False, "fails": bool(real_fails),
-                        "raised": real_raised, "hasVerdict": True}}
+                        "raised": real_raised, "hasVerdict": True, "stable": True}}
         d = ctx.sub("selftest-" + name)
         tp, ep, dp = os.path.join(d, "trace.ndjson"), os.path.join(d, "entries.json"), os.path.join(d, "defaults.json")
         open(tp, "w").write(json.dumps(rec) + "\n")
